@@ -251,7 +251,10 @@ def c01_6(ctx: Ctx):
     ok = len(asserts) == 1 and src(asserts[0].node.test).replace(" ", "") == "offset>=last_end"
     ctx.check(ok, fi, asserts[0].node if asserts else fi.node, "assert offset >= last_end", "overlap assertion changed or removed")
     le = [g for g in lin.stmts if isinstance(g.node, ast.Assign) and src(g.node.targets[0]) == "last_end" and g.loops]
-    ok = len(le) == 1 and linform(le[0].node.value) == {"offset": 1, "modification.scope._replacement_length()": 1}
+    from ..astx import find_assign as _fa
+    rl_alias = {a.targets[0].id: a.value for a in walk_no_nested(fi.node) if isinstance(a, ast.Assign) and len(a.targets) == 1 and isinstance(a.targets[0], ast.Name)
+                and src(a.value) == "modification.scope._replacement_length()" and len(_fa(fi.node, a.targets[0].id)) == 1}
+    ok = len(le) == 1 and linform(le[0].node.value, subst=rl_alias) == {"offset": 1, "modification.scope._replacement_length()": 1}
     ctx.check(ok, fi, le[0].node if le else fi.node, "last_end = offset + replacement_length",
               f"last_end = {src(le[0].node.value) if le else '?'}")
     if asserts and le:
